@@ -166,6 +166,85 @@ CURATED = [
 ]
 
 
+NAMES = ["flour", "sugar", "milk", "butter", "water", "rice", "stock", "oil", "cream", "soda", "oats", "honey"]
+
+
+def amount_recipes(rng, n):
+    """many metric amounts, to be converted to both systems: the imperial side approximates by fractions,
+    so the `err` of the result takes every size from 0 up to the accuracy limit (tiny non-zero ones
+    included: 355 ml, 907 g, 2011 ml ...)"""
+    out = []
+    common_amounts = [(355, "ml"), (907, "g"), (2011, "ml"), (151, "g"), (567, "g"), (2268, "g"), (414, "ml"),
+                      (552, "ml"), (828, "ml"), (454, "g"), (250, "ml"), (1, "kg"), (330, "ml"), (75, "cl")]
+    for i in range(n):
+        items = []
+        for j in range(rng.randint(6, 14)):
+            r = rng.random()
+            if r < 0.2:
+                a, u = rng.choice(common_amounts)
+            elif r < 0.6:
+                a, u = rng.randint(1, 3000), rng.choice(["g", "ml"])
+            elif r < 0.8:
+                a, u = rng.choice([5, 10, 15, 20, 25, 30, 40, 50, 60, 75, 80, 100, 120, 125, 150, 175, 200, 225,
+                                   300, 350, 400, 450, 500, 600, 700, 750, 800, 900, 1000, 1500, 2000]), rng.choice(["g", "ml"])
+            else:
+                a, u = round(rng.uniform(0.05, 5), rng.randint(1, 3)), rng.choice(["kg", "l", "dl", "cl"])
+            items.append("@%s{%s%%%s}" % (rng.choice(NAMES), a, u))
+        body = "Mix " + ", ".join(items[:len(items) // 2]) + ".\n\nAdd " + " and ".join(items[len(items) // 2:]) + ".\n"
+        if rng.random() < 0.5:
+            body += "\nBake in #oven for ~{%d%%min}.\n" % rng.choice([20, 45, 90])
+        out.append(body)
+    return out
+
+
+def sparse_recipes():
+    """recipes that lack a component kind altogether (no ingredients / cookware / timers), so the
+    per-kind lists of the scaling outcome are empty"""
+    return ["Just stir and wait.\n",
+            "Boil.\n\nServe.\n",
+            "Heat the #pan{} and the #pot{2}.\n",
+            "Wait ~{10%min} then ~rest{1%h}.\n",
+            "@salt{1%tsp}\n",
+            "@flour{200%g} in a #bowl{}.\n",
+            "@eggs{3} for ~{4%min}.\n",
+            "#pot{} for ~{4%min}.\n",
+            "= Only a section\n\n> and a note\n"]
+
+
+def inter_ref_recipes(rng, n):
+    """intermediate-preparation references to late steps / sections in recipes with few ingredients (the
+    target is an index into Section::content or Recipe::sections, not into the ingredients)"""
+    verbs = ["Boil water.", "Stir well.", "Let it rest.", "Cool down.", "Whisk.", "Fold gently.", "Season.",
+             "Heat the #pan{}.", "Wait ~{5%min}.", "Knead.", "> a remark"]
+    out = []
+    for i in range(n):
+        if rng.random() < 0.55:
+            k = rng.randint(2, 9)
+            steps = [rng.choice(verbs) for _ in range(k)]
+            if rng.random() < 0.4:
+                steps[rng.randrange(k)] = "Add @salt{1%tsp}."
+            nsteps = sum(1 for x in steps if not x.startswith(">"))
+            if nsteps == 0:
+                continue
+            t = rng.randint(1, nsteps)
+            ref = "(%d)" % t if rng.random() < 0.5 else "(~%d)" % t
+            last = "Use the @&%s%s{%s} now." % (ref, rng.choice(["result", "mix", "base"]), rng.choice(["", "", "100%g", "1/2"]))
+            if rng.random() < 0.3:
+                last += " And again @&%s%s{}." % ("(~1)", "mix")
+            out.append("\n\n".join(steps + [last]) + "\n")
+        else:
+            k = rng.randint(2, 6)
+            secs = []
+            for j in range(k):
+                secs.append("= Part %d\n\n%s" % (j + 1, "\n\n".join(rng.choice(verbs) for _ in range(rng.randint(1, 3)))))
+            t = rng.randint(1, k)
+            ref = "(=%d)" % t if rng.random() < 0.5 else "(=~%d)" % t
+            secs.append("= Assembly\n\n%sCombine @&%s%s{} and serve."
+                        % ("Take @cream{100%ml}. " if rng.random() < 0.3 else "", ref, rng.choice(["sauce", "dough", "filling"])))
+            out.append("\n\n".join(secs) + "\n")
+    return out
+
+
 def modifier_recipes():
     """every subset of the five modifier characters on an ingredient and on cookware"""
     out = []
@@ -182,6 +261,12 @@ def gen_recipes(rng, n):
     for text in CURATED + modifier_recipes():
         out.append((text, ALL_EXT, "curated"))
         out.append((front_matter(rng, False) + text, ALL_EXT, "curated+yaml"))
+    for text in sparse_recipes():
+        out.append((text, ALL_EXT, "sparse"))
+    for text in amount_recipes(rng, max(40, n // 8)):
+        out.append((text, ALL_EXT, "amounts"))
+    for text in inter_ref_recipes(rng, max(60, n // 8)):
+        out.append((text, ALL_EXT, "inter-ref"))
     for i in range(n):
         r = rng.random()
         profile = "extended" if rng.random() < 0.8 else "canonical"
@@ -316,14 +401,39 @@ def mutate(rng, tree):
 
 # ----------------------------------------------------------------------------- run
 
+def dump_index_of_data(t):
+    """position of the recipe's last field (`data`) in a dump token list"""
+    for i in range(len(t) - 1, -1, -1):
+        if t[i] == "data":
+            return i
+    return len(t)
+
+
 def stats_of(dump, c):
     t = dump.split(" ")
+    # intermediate references whose target index is not an ingredient index
+    try:
+        i0 = t.index("ingredients")
+        ningr = int(t[i0 + 1][1:])
+        for i, x in enumerate(t):
+            if x == "references_to" and t[i + 3:i + 5] in (["s", "VStep"], ["s", "VSection"]) and int(t[i + 1][1:]) >= ningr:
+                c["inter_ref_target_ge_ningredients"] += 1
+    except (ValueError, IndexError):
+        pass
     for i, x in enumerate(t):
         if x in ("VFraction", "VRange", "VText", "VRegular", "VError", "VStep", "VSection", "VReference", "VLinear",
                  "VFixed", "VScaled", "VDefaultScaling", "VInlineQuantity", "VNoQuantity"):
             c[x] += 1
         elif x == "err" and t[i + 1] not in ("N0.0", "N-0.0"):
             c["fraction_err_nonzero"] += 1
+            try:
+                if abs(float(t[i + 1][1:])) < 5e-4:
+                    c["fraction_err_nonzero_below_5e-4"] += 1
+            except ValueError:
+                pass
+        elif x in ("ingredients", "cookware", "timers") and t[i + 1] == "L0" and "VScaled R4" in dump \
+                and i > dump_index_of_data(t):
+            c["scaled_outcome_list_empty"] += 1
         elif x == "reference" and t[i + 1] == "s":
             c["recipe_reference"] += 1
         elif x.startswith("F") and x[1:].isdigit():
@@ -336,11 +446,32 @@ def stats_of(dump, c):
 
 def run(rep, tier, seed):
     rng = random.Random(seed)
-    gen_info = gen_serde.regenerate()
+    # The model side may be unavailable: the translator refuses a serde attribute the generic model does
+    # not cover, the regenerated descriptors do not compile, or a proof obligation breaks.  None of that
+    # stops the search: the monitor on the implementation needs no descriptor, so the generated recipes
+    # are still run and a failing input is reported if there is one (no-failing-input-found otherwise).
+    model_broken = None
+    gen_info = {"changed": False, "types": [], "notes": []}
+    try:
+        gen_info = gen_serde.regenerate()
+    except common.Broken as e:
+        model_broken = "descriptor translation: %s" % str(e)[:1500]
     bindir = common.build_harness(["serde"])
-    audit = common.audit_property_file("C15")
-    runner = common.build_runner("serde", DEPS)
     exe = os.path.join(bindir, "serde")
+    if model_broken is None:
+        audit = common.audit_property_file("C15")
+    else:
+        # coq/Gen/SerdeDesc.v is stale (last translatable state): its theorems say nothing about this tree
+        audit = {"theorems": [], "obligations": 1, "discharged": 0, "axioms": {}, "ok": False,
+                 "failed": ["C15_descriptors_wf cannot be stated: " + model_broken], "log": model_broken}
+    runner = None
+    if model_broken is None:
+        try:
+            runner = common.build_runner("serde", DEPS)
+        except common.Broken as e:
+            model_broken = "model runner: %s" % str(e)[:1500]
+            audit["ok"] = False
+            audit["failed"] = audit.get("failed", []) + [model_broken]
     findings = {c: next((f for f in rep.findings if f.get("class") == c), None) for c in (CLASS_META, CLASS_FLOAT)}
 
     n_rec = 700 if tier == "quick" else 14000
@@ -348,7 +479,15 @@ def run(rep, tier, seed):
     recipes += [(WITNESS, ALL_EXT, "witness")] + gen_recipes(rng, n_rec)
     cases = []
     for text, bits, kind in recipes:
-        for v in (["u", "d", "d+i", "s1.5+i"] if kind in ("corpus", "witness") else variants(rng)):
+        if kind in ("corpus", "witness"):
+            vs = ["u", "d", "d+i", "s1.5+i"]
+        elif kind == "amounts":
+            vs = ["d+i", "d+m", "s%s+i" % rng.choice(["2", "0.5", "3", "1.5", "0.25", "4"]), "u"]
+        elif kind == "sparse":
+            vs = ["u", "d", "s2", "s0.5+i", "t3"]
+        else:
+            vs = variants(rng)
+        for v in vs:
             cases.append((text, bits, v, kind))
     lines = ["R %s %d %s" % (hx(t), b, v) for t, b, v, _ in cases]
     impl = common.run_lines(exe, lines, tag="impl")
@@ -373,7 +512,10 @@ def run(rep, tier, seed):
         f["tree"] = tree
         model_cases.append("R %s %s %s" % (f["T"], f["D"], jtok(tree) if tree is not None else "-"))
         model_idx.append(idx)
-    model = common.run_lines(runner, model_cases, tag="model")
+    if runner is not None:
+        model = common.run_lines(runner, model_cases, tag="model")
+    else:
+        model = ["W skipped ;; S - ;; D - ;; N - ;; R -"] * len(model_cases)
 
     evaluated = 0
     distinct = set()
@@ -410,6 +552,8 @@ def run(rep, tier, seed):
         else:
             monitor_hits.append((text, "round trip fails without the metadata: %s (variant %s)" % (f["M2"], v), rp))
         # ---- correspondence
+        if runner is None:
+            continue
         if m["W"].startswith("unres"):
             disagreements.append((text, dict(rp, model=lm[:300], why="dump does not fit the regenerated descriptor: " + m["W"])))
             continue
@@ -443,6 +587,8 @@ def run(rep, tier, seed):
             mm = mutate(rng, f["tree"])
             if mm is not None:
                 mut.append((i, f["T"], mm[0], mm[1]))
+    if runner is None:
+        mut = []
     if mut:
         mi = common.run_lines(exe, ["M %s %s" % (t, hx(jtext(tr))) for _, t, _, tr in mut], tag="impl-mut")
         mo = common.run_lines(runner, ["M %s %s" % (t, jtok(tr)) for _, t, _, tr in mut], tag="model-mut")
@@ -499,6 +645,7 @@ def run(rep, tier, seed):
         "oracle_hypothesis_failures": len(known_hits[CLASS_FLOAT]),
         "monitor_violations": len(monitor_hits), "correspondence_disagreements": len(disagreements),
         "distribution": dict(sorted(st.items())),
+        "model_side": "ok" if model_broken is None else "unavailable (monitor only): " + model_broken[:400],
         "descriptor_types": gen_info["types"], "descriptor_notes": gen_info["notes"],
         "descriptors_changed_this_run": gen_info["changed"],
         "samples": [{"input": cases[i][0], "variant": cases[i][2], "monitor": parsed[i]["M"], "class": parsed[i]["K"],
